@@ -19,13 +19,19 @@ import (
 	"verifharness/enum"
 )
 
-var modes = []string{"text", "custom", "json", "dry"}
+var modes = []string{"text", "custom", "json", "dry", "custom-empty", "custom-mixed"}
 
 func opts(mode string) []gtree.Option {
 	switch mode {
 	case "custom":
 		// the four strings cmd/gtree-wasm composes from its form fields
 		return []gtree.Option{gtree.WithBranchFormatLastNode("`"+"--", "    "), gtree.WithBranchFormatIntermedialNode("+"+"--", ":"+"   ")}
+	case "custom-empty":
+		// every box of the web form left empty
+		return []gtree.Option{gtree.WithBranchFormatLastNode("", ""), gtree.WithBranchFormatIntermedialNode("", "")}
+	case "custom-mixed":
+		// some boxes empty, a multi-byte one, unequal widths
+		return []gtree.Option{gtree.WithBranchFormatLastNode("╚══════", ""), gtree.WithBranchFormatIntermedialNode("", "|   ")}
 	case "json":
 		return []gtree.Option{gtree.WithEncodeJSON()}
 	case "dry":
